@@ -512,13 +512,9 @@ theorem frun_failed_has_ferr {σ : State → Label → Option State} {t : Topo} 
 
 /-! ### (F1) a notifying method that addresses several sessions returns after every per-session send -/
 
-/-- State form: in every reachable state in which the notifying method `g` can return, the per-session send
-of each of its copies has returned (the copy is recorded as returned on its pair) or has failed. -/
-theorem fanout_sends_over_when_it_returns {σ : State → Label → Option State} (hσ : PairOK σ) {t : Topo}
-    {ls : List FLabel} {S S' : FState} (h : frun σ t finit ls = some S) {g : Nat}
+theorem finv_fret_copy {σ : State → Label → Option State} {t : Topo} {S S' : FState} (hinv : FInv t S) {g : Nat}
     (hs : fstep σ t S (.fret g) = some S') {c : Nat} (hc : c ∈ t.copies g) (hg : t.grp c = some g) :
     c ∈ (S.peers (t.pair c)).returned ∨ c ∈ S.failed := by
-  have hinv := finv_run hσ (finv_init t) h
   simp only [fstep] at hs
   split at hs <;> simp at hs
   rename_i hen
@@ -527,6 +523,14 @@ theorem fanout_sends_over_when_it_returns {σ : State → Label → Option State
   · rw [hen.2.2.2] at q; cases q
   · left; exact q
   · right; exact q
+
+/-- State form: in every reachable state in which the notifying method `g` can return, the per-session send
+of each of its copies has returned (the copy is recorded as returned on its pair) or has failed. -/
+theorem fanout_sends_over_when_it_returns {σ : State → Label → Option State} (hσ : PairOK σ) {t : Topo}
+    {ls : List FLabel} {S S' : FState} (h : frun σ t finit ls = some S) {g : Nat}
+    (hs : fstep σ t S (.fret g) = some S') {c : Nat} (hc : c ∈ t.copies g) (hg : t.grp c = some g) :
+    c ∈ (S.peers (t.pair c)).returned ∨ c ∈ S.failed :=
+  finv_fret_copy (finv_run hσ (finv_init t) h) hs hc hg
 
 /-- Trace form, for ALL label lists, ALL addressings and either pair model: when the notifying method `g`
 returns, the per-session send of every one of its copies has returned or failed before. -/
@@ -698,5 +702,442 @@ theorem step_unsent_or_pred {kind : Nat → Kind} {s s' : State} {l : Label} (hi
     left; simp only [setPhase_phase]; split
     · rename_i e; subst e; rw [hu] at hg; simp at hg
     · exact hu
+
+theorem step_unsent_stays {kind : Nat → Kind} {s s' : State} {l : Label} (hinv : Inv kind s) (h : step kind s l = some s')
+    {j : Nat} (hu : s.phase j = .unsent) :
+    s'.phase j = .unsent ∨ l = .send j ∨ ∃ ps, l = .bsend ps j := by
+  cases l <;> simp only [step] at h
+  case send k =>
+    split at h <;> simp at h
+    subst h
+    by_cases e : j = k
+    · subst e; right; left; rfl
+    · left; simp [e, hu]
+  case bsend ps k =>
+    split at h <;> simp at h
+    subst h
+    by_cases e : j = k
+    · subst e; right; right; exact ⟨ps, rfl⟩
+    · left; simp [e, hu]
+  case write k =>
+    split at h <;> simp at h
+    rename_i hg; subst h
+    left; simp only [setPhase_phase]; split
+    · rename_i e; subst e; rw [hu] at hg; simp at hg
+    · exact hu
+  case ret k =>
+    split at h
+    · simp at h
+    · split at h <;> simp at h; subst h; left; exact hu
+  case disp k =>
+    split at h
+    · split at h <;> simp at h
+      rename_i hd q hb hq e
+      subst e; subst h
+      have hph : s.phase hd = .queued := (hinv.qmem hd).1 (by rw [hq]; simp)
+      left; simp only [setPhase_phase]; split
+      · rename_i e; subst e; rw [hu] at hph; cases hph
+      · exact hu
+    · simp at h
+  case rel k =>
+    split at h <;> simp at h
+    rename_i hg; subst h
+    left; simp only [setPhase_phase]; split
+    · rename_i e; subst e; rw [hu] at hg; simp at hg
+    · exact hu
+  case start k =>
+    split at h <;> simp at h
+    rename_i hg; subst h
+    left; simp only [setPhase_phase]; split
+    · rename_i e; subst e; rw [hu] at hg; simp at hg
+    · exact hu
+  case cb k => split at h <;> simp at h; subst h; left; exact hu
+  case fin k =>
+    split at h <;> simp at h
+    rename_i hg; subst h
+    left; simp only [setPhase_phase]; split
+    · rename_i e; subst e; rw [hu] at hg; simp at hg
+    · exact hu
+
+theorem step_done_only_fin {kind : Nat → Kind} {s s' : State} {l : Label} (h : step kind s l = some s')
+    {i : Nat} (hd : s'.phase i = .done) : s.phase i = .done ∨ l = .fin i := by
+  cases l <;> simp only [step] at h
+  case disp k =>
+    split at h
+    · split at h <;> simp at h
+      subst h
+      simp only [setPhase_phase] at hd
+      split at hd
+      · cases hd
+      · left; exact hd
+    · simp at h
+  case ret k =>
+    split at h
+    · simp at h
+    · split at h <;> simp at h; subst h; left; exact hd
+  case cb k => split at h <;> simp at h; subst h; left; exact hd
+  case fin k =>
+    split at h <;> simp at h
+    subst h
+    simp only [setPhase_phase] at hd
+    split at hd
+    · rename_i e; subst e; right; rfl
+    · left; exact hd
+  all_goals
+    split at h <;> simp at h
+    subst h
+    simp only [setPhase_phase] at hd
+    split at hd
+    · cases hd
+    · left; exact hd
+
+/-! ### invariants of the family over the session pair model -/
+
+/-- Every pair satisfies the pair invariant, and a copy of a fan-out whose notifying method has not begun
+is unsent. -/
+structure FInvK (kind : Nat → Kind) (t : Topo) (S : FState) : Prop where
+  pinv : ∀ p, Inv kind (S.peers p)
+  unsent : ∀ c g, t.grp c = some g → g ∉ S.called → (S.peers (t.pair c)).phase c = .unsent
+
+theorem finvK_init (kind : Nat → Kind) (t : Topo) : FInvK kind t finit :=
+  ⟨fun _ => inv_init kind, fun _ _ _ _ => rfl⟩
+
+theorem fstep_called {σ : State → Label → Option State} {t : Topo} {S S' : FState} {l : FLabel}
+    (h : fstep σ t S l = some S') {g : Nat} (hg : g ∈ S.called) : g ∈ S'.called := by
+  cases l with
+  | msg l0 =>
+    obtain ⟨s', _, hcs⟩ := fstep_msg_cases h
+    rcases hcs with ⟨_, rfl⟩ | ⟨g', S1, _, hgate, rfl⟩
+    · exact hg
+    · rcases fgate_cases hgate with ⟨c', rfl, _, _, rfl⟩ | ⟨c', rfl, _, rfl⟩ | ⟨_, _, rfl⟩ <;> exact hg
+  | fcall g' =>
+    simp only [fstep] at h
+    split at h <;> simp at h
+    subst h; exact List.mem_cons_of_mem _ hg
+  | ferr c' =>
+    simp only [fstep] at h
+    split at h
+    · split at h <;> simp at h
+      subst h; exact hg
+    · simp at h
+  | fret g' =>
+    simp only [fstep] at h
+    split at h <;> simp at h
+    subst h; exact hg
+
+theorem finvK_step {kind : Nat → Kind} {t : Topo} {S S' : FState} {l : FLabel}
+    (hf : FInv t S) (h : FInvK kind t S) (hs : fstep (step kind) t S l = some S') : FInvK kind t S' := by
+  constructor
+  · intro p
+    rcases fstep_peers hs p with ⟨l0, _, _, hp⟩ | ⟨_, hp⟩
+    · exact inv_step (h.pinv p) hp
+    · rw [hp]; exact h.pinv p
+  · intro c g hg hn
+    have hn0 : g ∉ S.called := fun x => hn (fstep_called hs x)
+    have hu := h.unsent c g hg hn0
+    rcases fstep_peers hs (t.pair c) with ⟨l0, e, hpair, hp⟩ | ⟨_, hp⟩
+    · rcases step_unsent_stays (h.pinv _) hp hu with q | q | ⟨ps, q⟩
+      · exact q
+      · -- `send c` of a copy needs `c ∈ todo g`, hence `g` called
+        subst e; subst q
+        obtain ⟨s', _, hcs⟩ := fstep_msg_cases hs
+        rcases hcs with ⟨hn1, _⟩ | ⟨g', S1, hg', hgate, _⟩
+        · simp [Label.id, hg] at hn1
+        · simp only [Label.id, hg, Option.some.injEq] at hg'
+          subst hg'
+          simp only [fgate] at hgate
+          split at hgate <;> simp at hgate
+          rename_i hc
+          exact absurd (hf.todoCalled g c hc.1) hn0
+      · subst e; subst q
+        obtain ⟨s', _, hcs⟩ := fstep_msg_cases hs
+        rcases hcs with ⟨hn1, _⟩ | ⟨g', S1, hg', hgate, _⟩
+        · simp [Label.id, hg] at hn1
+        · simp [fgate] at hgate
+    · rw [hp]; exact hu
+
+theorem finvK_run {kind : Nat → Kind} {t : Topo} {S S' : FState} {ls : List FLabel}
+    (hf : FInv t S) (h : FInvK kind t S) (hs : frun (step kind) t S ls = some S') : FInvK kind t S' := by
+  induction ls generalizing S with
+  | nil => simp [frun] at hs; subst hs; exact h
+  | cons l ls ih =>
+    obtain ⟨M, h1, h2⟩ := frun_cons_some hs
+    exact ih (finv_step (pairOK_step kind) hf h1) (finvK_step hf h h1) h2
+
+/-! ### the property monitor accepts every run of the family -/
+
+/-- The monitor configuration that belongs to an addressing. -/
+def Topo.cfg (kind : Nat → Kind) (t : Topo) : Cfg := { kind := kind, pair := t.pair, copies := t.copies, grp := t.grp }
+
+def FMon.stepL (cfg : Cfg) (m : FMon) (l : FLabel) : FMon :=
+  match l.vis with
+  | some e => FMon.step cfg m e
+  | none => m
+
+theorem ffoldl_visible (cfg : Cfg) (m : FMon) (ls : List FLabel) :
+    (fvisible ls).foldl (FMon.step cfg) m = ls.foldl (FMon.stepL cfg) m := by
+  induction ls generalizing m with
+  | nil => rfl
+  | cons l ls ih =>
+    simp only [fvisible, List.filterMap_cons, List.foldl_cons, FMon.stepL]
+    cases hv : l.vis with
+    | none => simp [← ih, fvisible]
+    | some e => simp [← ih, fvisible]
+
+theorem stepL_send (cfg : Cfg) (m : FMon) (j : Nat) :
+    m.stepL cfg (.msg (.send j)) = { m with sentAfter := m.sentAfter ++ m.owed cfg j false } := rfl
+theorem stepL_bsend (cfg : Cfg) (m : FMon) (ps : List Nat) (j : Nat) :
+    m.stepL cfg (.msg (.bsend ps j)) = { m with sentAfter := m.sentAfter ++ m.owed cfg j false
+      ++ ((ps.filter fun k => cfg.obliges j k).map fun k => (k, j, Why.body)) } := rfl
+theorem stepL_ret (cfg : Cfg) (m : FMon) (i : Nat) :
+    m.stepL cfg (.msg (.ret i)) = { m with returned := (i, .later) :: m.returned } := rfl
+theorem stepL_fin (cfg : Cfg) (m : FMon) (i : Nat) :
+    m.stepL cfg (.msg (.fin i)) = { m with finished := i :: m.finished } := rfl
+theorem stepL_write (cfg : Cfg) (m : FMon) (i : Nat) : m.stepL cfg (.msg (.write i)) = m := rfl
+theorem stepL_disp (cfg : Cfg) (m : FMon) (i : Nat) : m.stepL cfg (.msg (.disp i)) = m := rfl
+theorem stepL_rel (cfg : Cfg) (m : FMon) (i : Nat) : m.stepL cfg (.msg (.rel i)) = m := rfl
+theorem stepL_cb (cfg : Cfg) (m : FMon) (i : Nat) : m.stepL cfg (.msg (.cb i)) = m := rfl
+theorem stepL_fcall (cfg : Cfg) (m : FMon) (g : Nat) :
+    m.stepL cfg (.fcall g) = { m with sentAfter := m.sentAfter ++ ((cfg.copies g).filter fun c => cfg.grp c == some g).flatMap fun c => m.owed cfg c true } := rfl
+theorem stepL_ferr (cfg : Cfg) (m : FMon) (c : Nat) :
+    m.stepL cfg (.ferr c) = { m with failed := c :: m.failed } := rfl
+theorem stepL_fret (cfg : Cfg) (m : FMon) (g : Nat) :
+    m.stepL cfg (.fret g) = { m with returned := (((cfg.copies g).filter fun c => cfg.grp c == some g && !m.failed.contains c).map fun c => (c, Why.fan g)) ++ m.returned } := rfl
+theorem stepL_start (cfg : Cfg) (m : FMon) (j : Nat) :
+    m.stepL cfg (.msg (.start j)) = FMon.step cfg m (.msg (.beg j)) := rfl
+
+theorem owed_mem {cfg : Cfg} {m : FMon} {j : Nat} {b : Bool} {x : Nat × Nat × Why} (h : x ∈ m.owed cfg j b) :
+    ∃ r, r ∈ m.returned ∧ x = (r.1, j, r.2) ∧ (cfg.kind r.1).sync = true ∧ cfg.pair r.1 = cfg.pair j := by
+  simp only [FMon.owed, List.mem_map, List.mem_filter] at h
+  obtain ⟨r, ⟨hr, hc⟩, rfl⟩ := h
+  simp only [Cfg.obliges, Bool.and_eq_true, beq_iff_eq] at hc
+  exact ⟨r, hr, rfl, hc.1.1.1, hc.1.1.2⟩
+
+/-- The monitor's bookkeeping is backed by the model's ghost state. -/
+structure FSim (kind : Nat → Kind) (t : Topo) (S : FState) (m : FMon) : Prop where
+  ret : ∀ r, r ∈ m.returned → r.1 ∈ (S.peers (t.pair r.1)).returned
+  failed : ∀ c, c ∈ S.failed → c ∈ m.failed
+  pred : ∀ x, x ∈ m.sentAfter → t.pair x.1 = t.pair x.2.1 ∧ (kind x.1).sync = true ∧
+    ((x.1, x.2.1) ∈ (S.peers (t.pair x.2.1)).pred ∨
+      (x.1 ∈ (S.peers (t.pair x.2.1)).returned ∧ (S.peers (t.pair x.2.1)).phase x.2.1 = .unsent))
+  fin : ∀ i, (S.peers (t.pair i)).phase i = .done → i ∈ m.finished
+  ok : m.bad = none
+
+theorem peers_returned_mono {kind : Nat → Kind} {t : Topo} {S S' : FState} {l : FLabel}
+    (hs : fstep (step kind) t S l = some S') {q i : Nat} (hi : i ∈ (S.peers q).returned) : i ∈ (S'.peers q).returned := by
+  rcases fstep_peers hs q with ⟨l0, _, _, hp⟩ | ⟨_, hp⟩
+  · exact step_returned_mono hp hi
+  · rw [hp]; exact hi
+
+theorem peers_pred_mono {kind : Nat → Kind} {t : Topo} {S S' : FState} {l : FLabel}
+    (hs : fstep (step kind) t S l = some S') {q : Nat} {x : Nat × Nat} (hi : x ∈ (S.peers q).pred) : x ∈ (S'.peers q).pred := by
+  rcases fstep_peers hs q with ⟨l0, _, _, hp⟩ | ⟨_, hp⟩
+  · exact step_pred_mono hp hi
+  · rw [hp]; exact hi
+
+/-- What a step of the model leaves of the simulation when the monitor does not move. -/
+theorem fsim_frame {kind : Nat → Kind} {t : Topo} {S S' : FState} {l : FLabel} {m : FMon}
+    (hK : FInvK kind t S) (hsim : FSim kind t S m) (hs : fstep (step kind) t S l = some S') :
+    (∀ r, r ∈ m.returned → r.1 ∈ (S'.peers (t.pair r.1)).returned) ∧
+    (∀ c, c ∈ S'.failed → c ∈ m.failed ∨ l = .ferr c) ∧
+    (∀ x, x ∈ m.sentAfter → t.pair x.1 = t.pair x.2.1 ∧ (kind x.1).sync = true ∧
+      ((x.1, x.2.1) ∈ (S'.peers (t.pair x.2.1)).pred ∨
+        (x.1 ∈ (S'.peers (t.pair x.2.1)).returned ∧ (S'.peers (t.pair x.2.1)).phase x.2.1 = .unsent))) ∧
+    (∀ i, (S'.peers (t.pair i)).phase i = .done → i ∈ m.finished ∨ l = .msg (.fin i)) := by
+  refine ⟨?_, ?_, ?_, ?_⟩
+  · intro r hr; exact peers_returned_mono hs (hsim.ret r hr)
+  · intro c hc
+    rcases fstep_failed_only hs hc with q | q
+    · left; exact hsim.failed c q
+    · right; exact q
+  · intro x hx
+    obtain ⟨h1, h2, h3⟩ := hsim.pred x hx
+    refine ⟨h1, h2, ?_⟩
+    rcases h3 with q | ⟨q1, q2⟩
+    · left; exact peers_pred_mono hs q
+    · rcases fstep_peers hs (t.pair x.2.1) with ⟨l0, _, _, hp⟩ | ⟨_, hp⟩
+      · rcases step_unsent_or_pred (hK.pinv _) hp q2 q1 h2 with r | r
+        · right; exact ⟨step_returned_mono hp q1, r⟩
+        · left; exact r
+      · right; rw [hp]; exact ⟨q1, q2⟩
+  · intro i hd
+    rcases fstep_peers hs (t.pair i) with ⟨l0, e, _, hp⟩ | ⟨_, hp⟩
+    · rcases step_done_only_fin hp hd with r | r
+      · left; exact hsim.fin i r
+      · right; rw [e, r]
+    · left; rw [hp] at hd; exact hsim.fin i hd
+
+theorem fsim_step {kind : Nat → Kind} {t : Topo} {S S' : FState} {l : FLabel} {m : FMon}
+    (hF : FInv t S) (hK : FInvK kind t S) (hsim : FSim kind t S m) (hs : fstep (step kind) t S l = some S') :
+    FSim kind t S' (m.stepL (t.cfg kind) l) := by
+  obtain ⟨fret, ffail, fpred, ffin⟩ := fsim_frame hK hsim hs
+  -- the monitor did not move and the label is not `fin`/`ferr`
+  have still : (∀ i, l ≠ .msg (.fin i)) → (∀ c, l ≠ .ferr c) → FSim kind t S' m := by
+    intro h1 h2
+    refine ⟨fret, ?_, fpred, ?_, hsim.ok⟩
+    · intro c hc; rcases ffail c hc with q | q
+      · exact q
+      · exact absurd q (h2 c)
+    · intro i hd; rcases ffin i hd with q | q
+      · exact q
+      · exact absurd q (h1 i)
+  have nofail : (∀ c, l ≠ .ferr c) → ∀ c, c ∈ S'.failed → c ∈ m.failed := by
+    intro h2 c hc; rcases ffail c hc with q | q
+    · exact q
+    · exact absurd q (h2 c)
+  have nofin : (∀ i, l ≠ .msg (.fin i)) → ∀ i, (S'.peers (t.pair i)).phase i = .done → i ∈ m.finished := by
+    intro h1 i hd; rcases ffin i hd with q | q
+    · exact q
+    · exact absurd q (h1 i)
+  cases l with
+  | msg l0 =>
+    obtain ⟨s', hp⟩ := fstep_msg_pair hs
+    have hp' : step kind (S.peers (t.pair l0.id)) l0 = some (S'.peers (t.pair l0.id)) := by
+      rcases fstep_peers hs (t.pair l0.id) with ⟨l1, e, _, h1⟩ | ⟨h1, _⟩
+      · cases e; exact h1
+      · exact absurd rfl (h1 l0 rfl)
+    cases l0 with
+    | send j =>
+      rw [stepL_send]
+      refine ⟨fret, nofail (by intro c e; cases e), ?_, nofin (by intro i e; cases e), hsim.ok⟩
+      intro x hx
+      simp only [List.mem_append] at hx
+      rcases hx with hx | hx
+      · exact fpred x hx
+      · obtain ⟨r, hr, rfl, hsy, hpr⟩ := owed_mem hx
+        refine ⟨hpr, hsy, Or.inl ?_⟩
+        have hret := hsim.ret r hr
+        have hpr' : t.pair r.1 = t.pair j := hpr
+        rw [hpr'] at hret
+        exact step_send_pred hp' hret hsy
+    | bsend ps j =>
+      rw [stepL_bsend]
+      refine ⟨fret, nofail (by intro c e; cases e), ?_, nofin (by intro i e; cases e), hsim.ok⟩
+      intro x hx
+      simp only [List.mem_append] at hx
+      rcases hx with (hx | hx) | hx
+      · exact fpred x hx
+      · obtain ⟨r, hr, rfl, hsy, hpr⟩ := owed_mem hx
+        refine ⟨hpr, hsy, Or.inl ?_⟩
+        have hret := hsim.ret r hr
+        have hpr' : t.pair r.1 = t.pair j := hpr
+        rw [hpr'] at hret
+        exact step_bsend_pred hp' (Or.inr hret) hsy
+      · simp only [List.mem_map, List.mem_filter] at hx
+        obtain ⟨k, ⟨hk, hc⟩, rfl⟩ := hx
+        simp only [Cfg.obliges, Bool.and_eq_true, beq_iff_eq] at hc
+        exact ⟨hc.1.2, hc.1.1, Or.inl (step_bsend_pred hp' (Or.inl hk) hc.1.1)⟩
+    | write i => rw [stepL_write]; exact still (by intro i e; cases e) (by intro c e; cases e)
+    | disp i => rw [stepL_disp]; exact still (by intro i e; cases e) (by intro c e; cases e)
+    | rel i => rw [stepL_rel]; exact still (by intro i e; cases e) (by intro c e; cases e)
+    | cb i => rw [stepL_cb]; exact still (by intro i e; cases e) (by intro c e; cases e)
+    | ret i =>
+      rw [stepL_ret]
+      refine ⟨?_, nofail (by intro c e; cases e), fpred, nofin (by intro i e; cases e), hsim.ok⟩
+      intro r hr
+      simp only [List.mem_cons] at hr
+      rcases hr with rfl | hr
+      · exact step_ret_returned hp'
+      · exact fret r hr
+    | fin i =>
+      rw [stepL_fin]
+      refine ⟨fret, nofail (by intro c e; cases e), fpred, ?_, hsim.ok⟩
+      intro k hd
+      simp only [List.mem_cons]
+      rcases ffin k hd with q | q
+      · right; exact q
+      · left; cases q; rfl
+    | start j =>
+      rw [stepL_start]
+      have hfind : (m.sentAfter.find? fun p => p.2.1 == j && !m.finished.contains p.1) = none := by
+        rw [List.find?_eq_none]
+        intro x hx
+        simp only [Bool.and_eq_true, beq_iff_eq, Bool.not_eq_true', Bool.not_eq_eq_eq_not, Bool.not_true, not_and, Bool.not_eq_false]
+        intro e
+        obtain ⟨h1, h2, h3⟩ := hsim.pred x hx
+        rw [e] at h3 h1
+        have hstart : step kind (S.peers (t.pair j)) (.start j) = some (S'.peers (t.pair j)) := hp'
+        rcases h3 with q | ⟨_, q⟩
+        · have hd := pred_done_at_start (hK.pinv _) q hstart
+          rw [← h1] at hd
+          simpa using hsim.fin x.1 hd
+        · simp only [step] at hstart
+          split at hstart <;> simp at hstart
+          rename_i hc
+          rcases hc with ⟨e2, _⟩ | e2 <;> rw [q] at e2 <;> cases e2
+      have : FMon.step (t.cfg kind) m (.msg (.beg j)) = m := by
+        simp only [FMon.step, hsim.ok, hfind]
+      rw [this]
+      exact still (by intro i e; cases e) (by intro c e; cases e)
+  | fcall g =>
+    rw [stepL_fcall]
+    refine ⟨fret, nofail (by intro c e; cases e), ?_, nofin (by intro i e; cases e), hsim.ok⟩
+    intro x hx
+    simp only [List.mem_append, List.mem_flatMap, List.mem_filter] at hx
+    rcases hx with hx | ⟨c, ⟨hc, hg⟩, hx⟩
+    · exact fpred x hx
+    · obtain ⟨r, hr, rfl, hsy, hpr⟩ := owed_mem hx
+      have hg' : t.grp c = some g := by simpa [Topo.cfg] using hg
+      have hn : g ∉ S.called := by
+        simp only [fstep] at hs
+        split at hs <;> simp at hs
+        assumption
+      have hpeers : S'.peers = S.peers := by
+        simp only [fstep] at hs
+        split at hs <;> simp at hs
+        subst hs; rfl
+      refine ⟨hpr, hsy, Or.inr ⟨?_, ?_⟩⟩
+      · have hret := hsim.ret r hr
+        have hpr' : t.pair r.1 = t.pair c := hpr
+        rw [hpr'] at hret
+        rw [hpeers]; exact hret
+      · rw [hpeers]; exact hK.unsent c g hg' hn
+  | ferr c =>
+    rw [stepL_ferr]
+    refine ⟨fret, ?_, fpred, nofin (by intro i e; cases e), hsim.ok⟩
+    intro c' hc'
+    simp only [List.mem_cons]
+    rcases ffail c' hc' with q | q
+    · right; exact q
+    · left; cases q; rfl
+  | fret g =>
+    rw [stepL_fret]
+    refine ⟨?_, nofail (by intro c e; cases e), fpred, nofin (by intro i e; cases e), hsim.ok⟩
+    intro r hr
+    simp only [List.mem_append, List.mem_map, List.mem_filter] at hr
+    rcases hr with ⟨c, ⟨hc, hcond⟩, rfl⟩ | hr
+    · simp only [Bool.and_eq_true, beq_iff_eq, Bool.not_eq_true', Topo.cfg] at hcond
+      have hpeers : S'.peers = S.peers := by
+        simp only [fstep] at hs
+        split at hs <;> simp at hs
+        subst hs; rfl
+      rw [hpeers]
+      rcases finv_fret_copy hF hs hc hcond.1 with q | q
+      · exact q
+      · have := hsim.failed c q
+        have h2 := hcond.2
+        simp at h2
+        exact absurd this h2
+    · exact fret r hr
+
+theorem fsim_run {kind : Nat → Kind} {t : Topo} {S S' : FState} {ls : List FLabel} {m : FMon}
+    (hF : FInv t S) (hK : FInvK kind t S) (hsim : FSim kind t S m) (hs : frun (step kind) t S ls = some S') :
+    FSim kind t S' (ls.foldl (FMon.stepL (t.cfg kind)) m) := by
+  induction ls generalizing S m with
+  | nil => simp [frun] at hs; subst hs; exact hsim
+  | cons l ls ih =>
+    obtain ⟨M, h1, h2⟩ := frun_cons_some hs
+    exact ih (finv_step (pairOK_step kind) hF h1) (finvK_step hF hK h1) (fsim_step hF hK hsim h1) h2
+
+/-- Bridging theorem for the family: for ALL addressings, ALL classifications and ALL label lists that are
+runs of the family model — any number of peers, any interleaving of fan-outs (each walking its session
+snapshot in any order, with any of its sends failing), directed messages, transports, dispatchers and
+handlers — the property monitor that is evaluated on the logs recorded from the real sessions holds on
+what an observer sees of the run. -/
+theorem fan_monitor_accepts_runs {kind : Nat → Kind} {t : Topo} {ls : List FLabel} {S : FState}
+    (h : frun (step kind) t finit ls = some S) : fholdsOn (t.cfg kind) (fvisible ls) = true := by
+  have hsim : FSim kind t finit ({} : FMon) := ⟨by simp, by simp [finit], by simp, by intro i; simp [finit, init], rfl⟩
+  have := fsim_run (finv_init t) (finvK_init kind t) hsim h
+  simp [fholdsOn, fmonitor, ffoldl_visible, this.ok]
 
 end Order
